@@ -119,11 +119,11 @@ Definition body_k (nba: bool) (ff: list (string * option string)) (discr: option
   run_frame (cs_name c) d (allowed_keys_k ff discr nba) (run_blocks (cs_name c) d (cs_fields c))
             (frame_try (cs_forbid_extra c) (is_nil ff)) frame_handler.
 
-Theorem body_k_body : forall nba ff discr c d,
+Theorem body_k_body_e : forall nba ff discr c d,
   keys_agree nba ff (cs_fields c) -> cs_discr_keys c = olist discr ->
-  rmap (fill_all (cs_fields c)) (body_k nba ff discr c d) = rmap (fill_all (cs_fields c)) (body c d).
+  body_k nba ff discr c d = body_e c d.
 Proof.
-  intros nba ff discr c d Hk Hd. rewrite <- body_e_body. rewrite <- frame_body_e. unfold body_k, run_frame.
+  intros nba ff discr c d Hk Hd. rewrite <- frame_body_e. unfold body_k, run_frame.
   assert (N: is_nil ff = is_nil (cs_fields c)) by (destruct Hk; reflexivity).
   rewrite N.
   rewrite (run_try_members (cs_name c) d (allowed_keys_k ff discr nba) (allowed_keys c) _ _ frst0
@@ -132,29 +132,20 @@ Proof.
 Qed.
 
 (* the whole generated from_dict: pre-hook, emitted frame with the generator's allowed keys around the emitted blocks,
-   constructor call, post hooks *)
+   constructor call (K105aProofs.construct: an unbound positional local would be an UnboundLocalError), post hooks *)
 Definition from_dict_k (nba: bool) (ff: list (string * option string)) (discr: option string) (c: cspec) (d0: pv) : res pv :=
   match (match c.(cs_pre) with Some h => h d0 | None => Ok d0 end) with
   | Exn e => Exn e
-  | Ok d =>
-      match body_k nba ff discr c d with
-      | Exn e => Exn e
-      | Ok xs =>
-          let obj := VObj c.(cs_name) (fill_all c.(cs_fields) xs) in
-          match c.(cs_post) with Some h => h obj | None => Ok obj end
-      end
+  | Ok d => match body_k nba ff discr c d with Exn e => Exn e | Ok xs => construct c xs end
   end.
 
 Theorem from_dict_k_from_dict : forall nba ff discr c d,
   keys_agree nba ff (cs_fields c) -> cs_discr_keys c = olist discr ->
   from_dict_k nba ff discr c d = from_dict c d.
 Proof.
-  intros nba ff discr c d0 Hk Hd. unfold from_dict_k, from_dict.
+  intros nba ff discr c d0 Hk Hd. rewrite <- from_dict_emitted. unfold from_dict_k, from_dict_e.
   destruct (match cs_pre c with Some h => h d0 | None => Ok d0 end) as [d|e]; [|reflexivity].
-  pose proof (body_k_body nba ff discr c d Hk Hd) as H.
-  destruct (body_k nba ff discr c d) as [xs|e]; destruct (body c d) as [ys|e']; cbn in H; try discriminate H.
-  - inversion H as [H1]. cbv zeta. rewrite H1. reflexivity.
-  - inversion H; subst. reflexivity.
+  rewrite (body_k_body_e nba ff discr c d Hk Hd). reflexivity.
 Qed.
 
 (* text of the frame statements (placeholder SET for the literal set of allowed keys) *)
